@@ -434,6 +434,11 @@ def run(chk: Check):
     rule_f8(chk, ix, repo.ir_x())
     from .c01 import rule_kind_guard
     rule_kind_guard(chk)
+    from .c12 import rule_z2_z3
+    from .c13 import rule_u2, rule_u3
+    rule_z2_z3(chk, ix)   # literal text of multi-line f-strings keeps the line ends it is read with
+    rule_u2(chk)          # the mode stack belongs to one tokenizer run
+    rule_u3(chk, ix)
     # f-string tokens are accumulated text (C08 L1/L2) and their trees carry spans (location rules of C01/C04): necessary here too
     from .c08 import rule_l1, rule_l2
     rule_l1(chk, ix)
